@@ -815,8 +815,10 @@ def gen_history(rng, w, n_random, stats):
     steps = [{"op": "init", "spec": repo_spec}]
     spec10 = repo_spec == "1.0"
     A = "a" if lay in ("0002", "none") else benign_id(lay, 1)
-    if lay in ("0006", "0007"):
-        A = rng.choice(["urn:obj:001", "a:1", "k:a"])
+    if lay == "0006":
+        A = "k:a"                      # root `a`: the ids z:a, x:a/v1/content ... map onto / into it
+    if lay == "0007":
+        A = "urn:obj:001"
     ids = [A]
 
     def src_file(name=None):
@@ -913,7 +915,10 @@ def gen_history(rng, w, n_random, stats):
     onto += [("onto", "a/v1/content"), ("onto", "a/v1"), ("onto", "p/q"), ("onto", "")] if lay in ("0002",) else []
     onto += [("onto", "z:a/v1/content"), ("onto", "z:p/q"), ("onto", "z:a")] if lay == "0006" else []
     rng.shuffle(onto)
-    for cls, hid in onto[:5]:
+    core = {"0002": ["p", "a/v1/content", ".", "extensions", "a/v1"], "0006": ["y:p", "z:a/v1/content", "x:.", "z:a", "n:extensions", "z:p/q"],
+            "0007": ["x:001", "zz:001"], "0003": [".", "a/v1/content"], "0004": ["..", "p"], "none": ["p", "a/v1/content", "."]}[lay]
+    onto = [("core", x) for x in core] + onto[:3]
+    for cls, hid in onto:
         if hid == "":
             continue
         stats["hostile_purge_" + cls] = stats.get("hostile_purge_" + cls, 0) + 1
